@@ -251,7 +251,13 @@ class Aspire:
         )
         if checkpoint_path is not None:
             with AspireFile(checkpoint_path, "a") as h5_file:
-                if checkpoint_save_config and not saved_config:
+                if (
+                    checkpoint_save_config
+                    and not saved_config
+                    and (overwrite or "checkpoint" not in h5_file)
+                ):
+                    # An existing checkpoint belongs with the configuration
+                    # (sampler type) it was written with
                     if "aspire_config" in h5_file:
                         del h5_file["aspire_config"]
                     self.save_config(h5_file, include_sampler_config=False)
